@@ -19,6 +19,9 @@ pub fn gen(seed: u64, _idx: u64, tier: Tier) -> Scenario {
     let mut r = Rng::new(seed);
     let mut sc = Scenario::new("C09", seed);
     sc.steps.push(Step::Connect { c: 0, inst: 0, buf: 0 });
+    // a slow disk: every completed write to the dump file takes this much (virtual) time, so the clock moves while
+    // the snapshot is being written
+    sc.knobs.insert("disk_write_latency_us".into(), *r.pick(&[0i64, 0, 0, 200, 5_000, 80_000]));
     // at most a few large values per run keep runs short; large ones appear in about every third run
     let mut big_budget = if r.chance(1, 3) { r.range(1, 2) } else { 0 };
     let ndb = r.range(1, 4);
@@ -172,7 +175,10 @@ pub fn save_restart(h: &mut H, prop: &str, downtime: u64, generation: &mut u32) 
     }
     // nothing may change between the snapshot taken above and the SAVE: the sweeper may have run, so re-read
     let before2 = snapshot(h, inst);
-    let before = if before2.iter().map(|m| m.len()).sum::<usize>() <= before.iter().map(|m| m.len()).sum::<usize>() { before2 } else { before };
+    // (remaining times-to-live are relative to the instant at which the snapshot that is used was read: the SAVE itself
+    // may have taken time on a slow disk)
+    let t2 = h.sim.now();
+    let (before, t0) = if before2.iter().map(|m| m.len()).sum::<usize>() <= before.iter().map(|m| m.len()).sum::<usize>() { (before2, t2) } else { (before, t0) };
     let nkeys: usize = before.iter().map(|m| m.len()).sum();
     h.count("keys_saved", nkeys as u64);
     h.sim.kill(inst);
@@ -206,6 +212,7 @@ pub fn exec(sc: &Scenario) -> Outcome {
     let mut h = H::new(sc);
     if let Err(e) = h.boot(&sc.cfg, "a") { return Outcome { verdict: "harness".into(), note: e, ..Default::default() }; }
     let mut generation = 0u32;
+    crate::world::g().disk_write_latency_ns = sc.knob("disk_write_latency_us", 0) as u64 * 1000;
     for (i, st) in sc.steps.iter().enumerate() {
         h.step_no = i;
         if h.dead.is_some() { break; }
@@ -240,7 +247,7 @@ pub fn exec(sc: &Scenario) -> Outcome {
 pub static DEF: CheckDef = CheckDef {
     id: "C09", level: "exploration", gen, exec,
     nontrivial: |o| o.counters.get("restarts").copied().unwrap_or(0) >= 1 && o.counters.get("keys_saved").copied().unwrap_or(0) >= 1,
-    rule: "one run = a dataset of 1-40 keys built through the real command path in up to 5 of the 16 databases (strings, lists, sets, hashes, sorted sets, streams; element counts and string lengths drawn from 0/1/2/62..65/255/256/16382..16385/65535..65537/70000; elements that are short text, random binary, integer-looking strings at every integer-encoding boundary, strings that start with the dump format's own opcodes and magic, and strings of 62..256 bytes; keys that are empty, binary, equal to opcodes / the magic string, 63..16384 bytes long; scores incl. +-inf, -0, 5e-324, 1e300; stream ids incl. the greatest possible one, automatic ids, emptied streams; TTLs from 1 ms to the year 2100 and up to the greatest accepted value, 2^64-1 ms), then SAVE, the server process is killed, the clocks advance by a downtime of 0 / 1 ms / 0.4 s / 1.2 s / 2 s / 30 s / ~3 years, and a fresh server is booted from the same directory (sometimes a second generation follows); oracle: the canonical stored dataset of the new process equals the one read from the old process at SAVE - per database the same keys with equal values (list order, set members, hash fields, scores numerically equal, stream entries with ids and fields), each remaining time-to-live equal within 2 ms, keys whose deadline passed during the downtime absent, no extra keys; non-trivial = at least one restart with at least one key saved",
+    rule: "one run = a dataset of 1-40 keys built through the real command path in up to 5 of the 16 databases (strings, lists, sets, hashes, sorted sets, streams; element counts and string lengths drawn from 0/1/2/62..65/255/256/16382..16385/65535..65537/70000; elements that are short text, random binary, integer-looking strings at every integer-encoding boundary, strings that start with the dump format's own opcodes and magic, and strings of 62..256 bytes; keys that are empty, binary, equal to opcodes / the magic string, 63..16384 bytes long; scores incl. +-inf, -0, 5e-324, 1e300; stream ids incl. the greatest possible one, automatic ids, emptied streams; TTLs from 1 ms to the year 2100 and up to the greatest accepted value, 2^64-1 ms), then SAVE (in half of the runs on a slow disk: each completed write of the dump takes 0.2 / 5 / 80 ms of virtual time, so the clock moves while the snapshot is written), the server process is killed, the clocks advance by a downtime of 0 / 1 ms / 0.4 s / 1.2 s / 2 s / 30 s / ~3 years, and a fresh server is booted from the same directory (sometimes a second generation follows); oracle: the canonical stored dataset of the new process equals the one read from the old process at SAVE - per database the same keys with equal values (list order, set members, hash fields, scores numerically equal, stream entries with ids and fields), each remaining time-to-live equal within 2 ms, keys whose deadline passed during the downtime absent, no extra keys; non-trivial = at least one restart with at least one key saved",
     quick_budget_s: 40.0, thorough_budget_s: 900.0, quick_max_runs: 1_000_000, thorough_max_runs: 100_000_000, exhaustive: false, exhaustive_after: |_| 0,
     real: REAL_WHOLE_SERVER, stub: STUB_WHOLE_SERVER, assumptions: ASSUME_COMMON,
 };
